@@ -6,9 +6,10 @@ Case lines (shared with harness/c10):
   clone o<k> /c10/obj
   vapply o<k> set_script co:<tag> <op>;<op>;...
   vapply o<k> do_op <op>
+  gop o<g> o<k> <op>            the same apply with command_giver = o<g> (if it is not destructed)
   adv <dt>
   sweep
-op syntax (comma separated): co,<fn>,<delay>,<tag> | rmh,<tag> | rmn,<fn> | fh,<tag> | fn,<fn> | rmall |
+op syntax (comma separated): co,<fn>,<delay>,<tag> | cofp,<fn>,<delay>,<tag> | rmh,<tag> | rmn,<fn> | fh,<tag> | fn,<fn> | rmall |
   dest,o<k> | err | info
 -/
 import NV.Common.Proto
@@ -24,7 +25,8 @@ def parseOid (s : String) : Option Nat :=
 
 def parseOp (s : String) : Option Op :=
   match s.splitOn "," with
-  | ["co", f, d, t] => do some (.co (← f.toNat?) (← d.toInt?) t)
+  | ["co", f, d, t] => do some (.co (← f.toNat?) (← d.toInt?) t false)
+  | ["cofp", f, d, t] => do some (.co (← f.toNat?) (← d.toInt?) t true)
   | ["rmh", t] => some (.rmh t)
   | ["rmn", f] => do some (.rmn (← f.toNat?))
   | ["fh", t] => some (.fh t)
@@ -57,6 +59,10 @@ def parseLine (p : Parsed) (line : String) : Parsed :=
     match parseOid o, parseOp op with
     | some k, some op => { p with cmds := Cmd.op k op :: p.cmds }
     | _, _ => { p with bad := line :: p.bad }
+  | ["gop", g, o, op] =>
+    match parseOid g, parseOid o, parseOp op with
+    | some g, some k, some op => { p with cmds := Cmd.gop g k op :: p.cmds }
+    | _, _, _ => { p with bad := line :: p.bad }
   | ["adv", dt] =>
     match dt.toNat? with
     | some d => { p with cmds := Cmd.adv d :: p.cmds }
@@ -75,14 +81,22 @@ def scriptsOf (p : Parsed) : Scripts := fun o tag =>
 
 def oid (o : Nat) : String := s!"o{o}"
 
-def renderRow (r : Nat × Nat × Int) : String := s!"o{r.1}/co{r.2.1}/{r.2.2}"
+def renderTp : Option Nat → String
+  | some g => s!"o{g}"
+  | none => "-"
+
+def parseTp (s : String) : Option (Option Nat) :=
+  if s == "-" then some none else (parseOid s).map some
+
+def renderRow (r : Nat × Nat × Int) : String :=
+  if r.2.1 = 0 then s!"o{r.1}/<function>/{r.2.2}" else s!"o{r.1}/co{r.2.1 - 1}/{r.2.2}"
 
 /-- canonical text of an event (exactly what the harness prints) -/
 def render : Ev → String
   | .tickbegin t => s!"{t} tickbegin"
   | .tickend t => s!"{t} tickend"
-  | .co t o f d tag h => s!"{t} r co o{o} {f} {d} {tag} {h}"
-  | .fire t o f tag => s!"{t} fire o{o} {f} {tag}"
+  | .co t o f d tag h fp g => s!"{t} r {if fp then "cofp" else "co"} o{o} {f} {d} {tag} {h} {renderTp g}"
+  | .fire t o f tag tp => s!"{t} fire o{o} {f} {tag} {renderTp tp}"
   | .rmh t o tag r => s!"{t} r rmh o{o} {tag} {r}"
   | .fh t o tag r => s!"{t} r fh o{o} {tag} {r}"
   | .rmn t o f r => s!"{t} r rmn o{o} {f} {r}"
@@ -91,6 +105,7 @@ def render : Ev → String
   | .dest t o x => s!"{t} r dest o{o} o{x}"
   | .info t rows => s!"{t} r info{String.join (rows.map fun r => " " ++ renderRow r)}"
   | .err o => s!"err *boom o{o}"
+  | .errFpDead => "err *fp-owner-destructed"
   | .opErr o => s!"r o{o} do_op !err"
   | .opDestructed o => s!"r o{o} do_op !destructed"
   | .setScriptDestructed o => s!"r o{o} set_script !destructed"
@@ -103,7 +118,8 @@ def render : Ev → String
 def parseRow (s : String) : Option (Nat × Nat × Int) :=
   match s.splitOn "/" with
   | [o, f, d] =>
-    if f.startsWith "co" then do some (← parseOid o, ← (f.drop 2).toString.toNat?, ← d.toInt?) else none
+    if f == "<function>" then do some (← parseOid o, 0, ← d.toInt?)
+    else if f.startsWith "co" then do some (← parseOid o, (← (f.drop 2).toString.toNat?) + 1, ← d.toInt?) else none
   | _ => none
 
 /-- one canonical output line -> event (lines that are recognised but whose numbers do not parse become
@@ -113,9 +129,11 @@ def parseEv (line : String) : Ev :=
   match toks line with
   | [t, "tickbegin"] => orBad do some (.tickbegin (← t.toInt?))
   | [t, "tickend"] => orBad do some (.tickend (← t.toInt?))
-  | [t, "r", "co", o, f, d, tag, h] =>
-    orBad do some (.co (← t.toInt?) (← parseOid o) (← f.toNat?) (← d.toInt?) tag (← h.toInt?))
-  | [t, "fire", o, f, tag] => orBad do some (.fire (← t.toInt?) (← parseOid o) (← f.toNat?) tag)
+  | [t, "r", "co", o, f, d, tag, h, g] =>
+    orBad do some (.co (← t.toInt?) (← parseOid o) (← f.toNat?) (← d.toInt?) tag (← h.toInt?) false (← parseTp g))
+  | [t, "r", "cofp", o, f, d, tag, h, g] =>
+    orBad do some (.co (← t.toInt?) (← parseOid o) (← f.toNat?) (← d.toInt?) tag (← h.toInt?) true (← parseTp g))
+  | [t, "fire", o, f, tag, tp] => orBad do some (.fire (← t.toInt?) (← parseOid o) (← f.toNat?) tag (← parseTp tp))
   | [t, "r", "rmh", o, tag, r] => orBad do some (.rmh (← t.toInt?) (← parseOid o) tag (← r.toInt?))
   | [t, "r", "fh", o, tag, r] => orBad do some (.fh (← t.toInt?) (← parseOid o) tag (← r.toInt?))
   | [t, "r", "rmn", o, f, r] => orBad do some (.rmn (← t.toInt?) (← parseOid o) (← f.toNat?) (← r.toInt?))
@@ -146,6 +164,7 @@ def Violation.render : Violation → String
   | .fireUnscheduled o f tag t => s!"fire-unscheduled-removed-or-repeated owner=o{o} fn={f} tag={tag} at={t}"
   | .fireEarly o tag due t => s!"fire-early owner=o{o} tag={tag} due={due} at={t} early={due - t}"
   | .fireDestructedOwner o tag => s!"fire-destructed-owner owner=o{o} tag={tag}"
+  | .fireWrongPlayer o tag got want => s!"fire-wrong-this_player owner=o{o} tag={tag} got={renderTp got} want={renderTp want}"
   | .removeHandleAnswer o tag got want => s!"remove-handle-answer owner=o{o} tag={tag} got={got} want={want}"
   | .removeHandleNothingPending o tag got => s!"remove-handle-nothing-pending owner=o{o} tag={tag} got={got}"
   | .findHandleAnswer o tag got want => s!"find-handle-answer owner=o{o} tag={tag} got={got} want={want}"
